@@ -412,6 +412,8 @@ class SF(RealFraction):
     def __pow__(s, k):
         if isinstance(k, SF):
             k = k.__index__()
+        if not isinstance(k, int) and hasattr(k, "__index__"):
+            k = k.__index__()  # numpy integers
         if not isinstance(k, int):
             raise HarnessError("symbolic ** non-int")
         if k < 0:
@@ -735,6 +737,7 @@ class Ctx:
         self.path_index = 0
         self.canary = None  # name of an intentionally-wrong oracle variant to use
         self.canary_hit = False
+        self.trace_n = []
 
     sym = property(lambda s: s.mode == "sym")
 
@@ -795,6 +798,12 @@ class Ctx:
     def _choose(self, n):
         if self.sym:
             return self.ex.choose(n)
+        if getattr(self, "lenient", False):
+            # concrete enumeration of all random outcomes (law replay): beyond the script take outcome 0
+            v = self.script_in[self.script_pos] if self.script_pos < len(self.script_in) else 0
+            self.script_pos += 1
+            self.trace_n.append((n, v))
+            return v if v < n else 0
         if n <= 1:
             if self.script_pos < len(self.script_in):
                 self.script_pos += 1
@@ -868,6 +877,25 @@ class Ctx:
                 return None
             m = self.ex.get_model()
         return model_to_dict(m, self.vars)
+
+    def require_ratio_eq(self, a, b, label, detail=""):
+        """a == b for rational-function terms, decided after factor-aware normalisation
+        (sym mode); plain Fraction equality in conc mode"""
+        if not self.sym or not (is_sym(a) or is_sym(b)):
+            return self.require(eq(a, b) if (is_sym(a) or is_sym(b)) else (RealFraction(a) == RealFraction(b)), label, detail)
+        from .ratnorm import Normaliser
+        nz = Normaliser()
+        ea, eb = lift(a), lift(b)
+        neq = nz.neq(ea, eb)
+        self.asserted += 1
+        r = self.ex.check(neq, *nz.denominators_nonzero(ea, eb))
+        if r == z3.unsat:
+            return True
+        if r == z3.unknown:
+            raise Inconclusive("rational identity unknown")
+        m = self.ex.get_model()
+        self.violations.append(Violation(label, detail, model_to_dict(m, self.vars), list(self.ex.script), self.path_index))
+        return False
 
     def fail(self, label, detail=""):
         return self.require(False, label, detail)
